@@ -389,6 +389,12 @@ var shimRedirects = map[string]string{
 	"errors.As":   "vfErrorsAs",
 	"google.golang.org/grpc/encoding.GetCodecV2": "vfGetCodecV2",
 	"google.golang.org/grpc/status.Errorf":       "vfStatusErrorf",
+	"(*github.com/coder/websocket.Conn).Read":    "vfWsRead",
+	"(*github.com/coder/websocket.Conn).Write":   "vfWsWrite",
+	"net/http.Error":                             "vfHttpError",
+	"net/http.NewRequest":                        "vfHttpNewRequest",
+	"(net/http.Header).Add":                      "vfHttpHeaderAdd",
+	"(*net/http.Client).Do":                      "vfHttpDo",
 }
 
 func (e *Engine) shimFn(name string) *ssa.Function {
@@ -843,6 +849,55 @@ func (e *Engine) intrinsic(fi *FnInfo) *Native {
 				return ts.True
 			}
 			return ts.False
+		})
+	case "vfFieldLen":
+		// vfFieldLen(x, "a.b.c"): len of the map/slice/chan reached from pointer x through the named
+		// (possibly unexported) fields, dereferencing pointers on the way.
+		return simple(func(e *Engine, s *State, gi int, args []Value) Value {
+			x := args[0].(Iface)
+			path, _ := args[1].(string)
+			var cur Value = x.v
+			t := x.t
+			for _, name := range strings.Split(path, ".") {
+				for {
+					pt, ok := t.Underlying().(*types.Pointer)
+					if !ok {
+						break
+					}
+					cur = e.load(s, cur.(Ptr))
+					t = pt.Elem()
+				}
+				st, ok := t.Underlying().(*types.Struct)
+				if !ok {
+					panic(engineErr("vfFieldLen: not a struct at " + name))
+				}
+				idx := -1
+				for i := 0; i < st.NumFields(); i++ {
+					if st.Field(i).Name() == name {
+						idx = i
+					}
+				}
+				if idx < 0 {
+					panic(engineErr("vfFieldLen: no field " + name))
+				}
+				cur = cur.(*StructV).f[idx]
+				t = st.Field(idx).Type()
+			}
+			switch v := cur.(type) {
+			case MapV:
+				if v.obj == 0 {
+					return ts.Const(64, 0)
+				}
+				return ts.Const(64, uint64(len(e.obj(s, v.obj).m.keys)))
+			case Slice:
+				return ts.Const(64, uint64(v.ln))
+			case ChanV:
+				if v.obj == 0 {
+					return ts.Const(64, 0)
+				}
+				return ts.Const(64, uint64(len(e.obj(s, v.obj).ch.buf)))
+			}
+			panic(engineErr("vfFieldLen: unsupported field kind"))
 		})
 	case "vfTypeName":
 		return simple(func(e *Engine, s *State, gi int, args []Value) Value {
